@@ -32,6 +32,7 @@ C15 = dict(
     modules=['calmjs.parse.lexers.es5', 'calmjs.parse.parsers.es5', 'calmjs.parse.asttypes', 'calmjs.parse.utils',
              'calmjs.parse.factory', 'calmjs.parse.lexers.tokens', 'calmjs.parse.exceptions'],
     owned_classes={'Lexer', 'Parser', 'Node'},
+    fresh_factories={'AutoLexToken'},          # a class of lexers/tokens.py: AutoLexToken() allocates
     node_module='calmjs.parse.asttypes',
     alloc_sites={
         'Parser': ['parse'],
@@ -41,7 +42,9 @@ C15 = dict(
         ('Parser.p_*', 'p*', 'the YaccProduction and the values in its slots belong to the current parse (ply contract)'),
         ('Parser.p_*', 'items', 'alias of a slot value of the current production'),
         ('Parser.p_iteration_statement_3.wrap', 'node', 'node allocated two lines above in the same closure'),
-        ('Lexer.*', 'token', 'tokens are allocated per match by ply.lex / by AutoLexToken() in this call'),
+        ('Lexer.t_*', 'token', 'the token ply.lex allocated for this match'),
+        ('Lexer.get_lexer_token', 'token', 'the token ply.lex allocated for this match (returned by self.lexer.token())'),
+        ('Lexer.token', 'token', 'the token this call obtained from _token()'),
         ('broken_string_token_handler', 'token', 'the error token ply allocated for this call'),
         ('RawParserUnparserFactory.build_unparse.unparse', 'kw', '**kw is a fresh dict for every call'),
         ('RawParserUnparserFactory.build_*', '*parse', 'attributes of the function object defined just above (build time)'),
